@@ -5,6 +5,7 @@ Cases: every string over the 14-symbol alphabet { } _ . & 0 1 9 + - space x c Z 
 over all 255 non-zero bytes, each also cut at every position; the null format; strtol probes
 validating the libc model.  Compared: outcome CLASS only (output / which exception / abort /
 fault); the bytes are C11's subject."""
+import itertools
 import vlib
 from fmt_gen import *
 
@@ -13,8 +14,8 @@ class C10(vlib.Check):
     pid = 'C10'
     group = 'fmt'
     per_case_timeout = 10
-    rule = ('exhaustive: all strings over the 14-symbol alphabet { } _ . & 0 1 9 + - sp x c Z of length <= 4 (quick) / <= 5 '
-            '+ 150k seeded of length 6 (thorough), each with no argument and with 1-2 arguments (strings that could hit the '
+    rule = ('exhaustive: all strings over the 14-symbol alphabet { } _ . & 0 1 9 + - sp x c Z of length <= 4 plus all of length 5 starting with "{" (quick) / '
+            'all of length <= 5 + 150k seeded of length 6 starting with "{" (thorough), each with no argument and with 1-2 arguments (strings that could hit the '
             'documented character-padding assertion get a text argument, a bounded sample of them an integer so that the '
             'abort itself is observed); directed: lookahead sites at the end of the string ("{_", "{.", "{&", "{", "}", '
             '"{{", "{1"), widths/indices around int overflow (2^31, 2^32+1, 2^63, 20 digits), &0, &N beyond the arguments, '
@@ -95,6 +96,10 @@ class C10(vlib.Check):
                     yield fmt_case('string', 'default', f, ['u8:200', 's:4142'])
         for f in all_strings(ALPHA14, maxlen):
             yield from with_args(f)
+        if quick:
+            # every length-5 string that starts a field
+            for tup in itertools.product(ALPHA14, repeat=4):
+                yield from with_args(b'{' + b''.join(tup))
         if not quick:
             for _ in range(150000):
                 f = b'{' + b''.join(rng.choice(ALPHA14) for _ in range(5))
